@@ -427,12 +427,20 @@ def builder_case(col, rng):
            ('limit', lambda it: it.limit(2)), ('slice', lambda it: it.slice(1, 3)), ('chunked', lambda it: it.chunked(2)),
            ('unique', lambda it: it.unique()), ('takewhile', lambda it: it.takewhile(lambda x: x < 4)),
            ('dropwhile', lambda it: it.dropwhile(lambda x: x < 2)), ('windowed', lambda it: it.windowed(2))]
-    base = Iter() if rng.random() < 0.5 else Iter(lambda x: x * 1)
+    # sub-spec OBJECTS shared between the stages of a prefix and the stage that is added (one Check / Coalesce / Iter used as map spec
+    # here and as filter key there): the added stage may wrap them, never change them
+    chk = Check(T, validate=lambda x: x < 4)
+    chk_typed = Check(type=int)
+    inner = Iter().map(lambda x: x)
+    ops += [('map-shared-check', lambda it: it.map(chk)), ('filter-shared-check', lambda it: it.filter(chk)), ('filter-typed-check', lambda it: it.filter(chk_typed)),
+            ('map-typed-check', lambda it: it.map(chk_typed)), ('takewhile-shared-check', lambda it: it.takewhile(chk)), ('unique-shared-check', lambda it: it.unique(chk_typed))]
+    r = rng.random()
+    base = Iter() if r < 0.35 else Iter(lambda x: x * 1) if r < 0.6 else Iter(chk) if r < 0.8 else Iter(chk_typed)
     chain = [base]
     names = []
     probe = [0, 1, 2, 3, 4, 5, 1, 2]
     for _ in range(rng.randint(1, 4)):
-        n, f = rng.choice(ops[:8])
+        n, f = rng.choice(ops[:8] + ops[9:])
         chain.append(f(chain[-1]))
         names.append(n)
     # record every prefix, then derive two different extensions from each and re-check
